@@ -923,7 +923,12 @@ impl Program<NamedDeBruijn> {
 
     /// Evaluate a Program as a specific PlutusVersion
     pub fn eval_version(self, initial_budget: ExBudget, version: &Language) -> EvalResult {
-        let mut machine = Machine::new(version.clone(), CostModel::default(), initial_budget, 200);
+        let mut machine = Machine::new(
+            version.clone(),
+            CostModel::default_for_language(version),
+            initial_budget,
+            200,
+        );
 
         let term = machine.run(self.term);
 
@@ -1023,7 +1028,7 @@ impl Program<NamedDeBruijn> {
     pub fn eval_debug(self, initial_budget: ExBudget, version: &Language) -> EvalResult {
         let mut machine = Machine::new_debug(
             version.clone(),
-            CostModel::default(),
+            CostModel::default_for_language(version),
             initial_budget,
             200, //slippage
         );
